@@ -90,8 +90,18 @@ def nextpow2(n, minimum=2 ** 15):
 
 def smoothing_dict(rng, dt, n_fft, op=None, fc_kind=None):
     op = op or OPERATORS[int(rng.integers(0, 7))]
-    return dict(operator=op, bandwidth=bandwidth(rng, op, 0.5 / dt),
-                center_frequencies_in_hz=centre_frequencies(rng, dt, n_fft, fc_kind))
+    fcs = centre_frequencies(rng, dt, n_fft, fc_kind)
+    # requested centre frequencies need not be ascending
+    r = rng.random()
+    if r < 0.12:
+        fcs = fcs[::-1].copy()
+    elif r < 0.24:
+        fcs = fcs[rng.permutation(fcs.size)]
+    elif r < 0.3 and fcs.size >= 2:
+        i = int(rng.integers(0, fcs.size - 1))
+        fcs = fcs.copy()
+        fcs[i], fcs[i + 1] = fcs[i + 1], fcs[i]
+    return dict(operator=op, bandwidth=bandwidth(rng, op, 0.5 / dt), center_frequencies_in_hz=fcs)
 
 
 # -- HVSR curve sets ------------------------------------------------------------------------
